@@ -89,7 +89,7 @@ def show_segs(segs):
 def parse_seg(s, params):
     a, _, b = s.partition("|")
     positions = parse_items(b, params)
-    return AlignmentSegment.create(positions, Peak(int(a), 1.0), positions)
+    return AlignmentSegment.create(positions, Peak(int(a), float(10 + (int(a) * 7919) % 97)), positions)
 
 
 def parse_segs(s, params):
